@@ -106,7 +106,8 @@ class Quoter:
 
     def in_slashes(self, val: str) -> bool:
         val = val.strip()
-        return self._in_quotes(val, "/")
+        # a single "/" is a string, not an (empty) regular expression
+        return len(val) > 1 and self._in_quotes(val, "/")
 
     def standardise_quotes(self, val: str) -> str:
         """
